@@ -11,14 +11,17 @@ BASELINE_OFF = ("cd /repo && /venv/bin/python -m pytest -ra -q -p no:cacheprovid
 
 # property id -> (engine/spec modules, technique, level text, level note, design ref)
 CHECKS = {
-    "C01": (["LexerOps.tla", "Lexer.tla", "LexerMC.tla", "Parser.tla", "ParserTable.tla", "ParserMC.tla"],
+    "C01": (["LexerOps.tla", "Lexer.tla", "LexerMC.tla", "Parser.tla", "ParserTable.tla", "ParserMC.tla", "Repl.tla"],
             "TLA+ scanner transducer and parser pushdown automaton (lazy input) model-checked by TLC; every terminal state, "
             "one-token edit and lexeme variant replayed on parse_script under a watchdog",
             "TLC explores the scanner over four character alphabets (all strings <= 4, thorough 5) and the parser automaton over "
             "the full ~105-class token alphabet (all sequences <= 2, thorough 3) and four construct alphabets (<= 4, thorough 5), "
             "checking totality/progress/error-position invariants; each terminal state (>300k texts quick), every one-token "
             "deletion/insertion/substitution and lexeme variant of sampled accepted programs and nestings to 40 are parsed twice "
-            "by the real parser: only a node or a CklSyntaxError with message and position may come out, within 5 s, both times equal.",
+            "by the real parser: only a node or a CklSyntaxError with message and position may come out, within 5 s, both times equal. "
+            "Repl.tla puts the read-eval-print loop on top of the parser automaton (every way of typing <= 3, thorough 4, tokens in "
+            "lines; MoreOnlyWhenWaiting, PlusMeansViable, FreshAfterVerdict) and its ~19k behaviours are replayed into the real "
+            "ckl.repl.main(): the continuation prompts must follow the parser's verdict and no parser failure may keep the loop asking.",
             "Trusted: TLC; the transcription tools/parser_table.py (its predictions are compared with the code as drift: 0 "
             "disagreements on 132k inputs); rendering of token classes to lexemes. Data-dependent parser branches are not modelled.",
             "DESIGN.md 4 C01"),
